@@ -404,7 +404,12 @@ func child(env hres.Env) *hres.Result {
 		if only := os.Getenv("VERIF_C18_FAMILY"); only != "" && only != f.Name {
 			continue
 		}
-		dl := time.Now().Add(time.Until(env.Deadline) / time.Duration(len(fams)-fi))
+		// quick: the families run one after the other against the one overall deadline; thorough: every family
+		// gets an equal share of what is left (the last one all of it), so that a big one cannot starve the rest
+		dl := env.Deadline
+		if env.Thorough() {
+			dl = time.Now().Add(time.Until(env.Deadline) / time.Duration(len(fams)-fi))
+		}
 		st := explore.Run(body(f, &mu, tot, discards), explore.Options{Budget: 1, Workers: env.Workers, Deadline: dl, Setup: setup, Samples: 2, MaxViol: 40})
 		evals += st.Executions
 		distinct += st.Outcomes
